@@ -51,11 +51,17 @@ fn run_typed<C: SimColor>(cfg: &RunCfg, spec: &DrawableSpec, path: Path) -> Draw
         path,
         boxes: Vec::new(),
     };
+    // devices that walk pixel streams by internal iteration (see dev.rs) make the shim do the same,
+    // unless a mid-stream fault is planned (that needs lazy pulling)
+    let fold = matches!(cfg.dev.disc(), crate::dev::Discipline::DrainBounded | crate::dev::Discipline::SkipHidden)
+        && !matches!(cfg.fault, Some(f) if f.at_item.is_some());
+    crate::erased::set_fold_mode(fold);
     let result = guarded(|| {
         let mut boxes = Vec::new();
         let mut top = DynTarget::new(&mut dev);
         with_stack(&mut top, cfg.stack, &mut boxes, &mut v)
     });
+    crate::erased::set_fold_mode(false);
     DrawRun {
         st: dev.into_state(),
         result,
